@@ -219,6 +219,16 @@ func render(ws workspace) (map[string]string, map[string]pos) {
 		w.ln(0, t("}"))
 		w.ln(0, t(""))
 	}
+	// (a request message of the standard name that is nested in another message)
+	w.ln(0, t("// Holder is documented."))
+	w.ln(0, t("message Holder {"))
+	w.ln(1, t("// PingRequest is documented."))
+	w.ln(1, t("message PingRequest {"))
+	w.ln(2, t("// The id is documented."))
+	w.ln(2, t("string id = 1;"))
+	w.ln(1, t("}"))
+	w.ln(0, t("}"))
+	w.ln(0, t(""))
 	tail = w.doc(0, ws["c_svc"], "The service")
 	w.ln(0, a("service ", "svc@decl"), a(ws["svc_name"], "svc@name"), t(" {"+tail))
 	typ := func(v string) string {
